@@ -3,6 +3,8 @@ package sim
 import (
 	"context"
 	"fmt"
+	"runtime"
+	"strings"
 	"sync"
 	"sync/atomic"
 
@@ -49,4 +51,29 @@ func UsePointGates(g *Gates, detail func(name string, obj interface{}) string) {
 		return
 	}
 	pointGates.Store(g)
+}
+
+var goroutineTags sync.Map // goroutine id -> tag
+
+func goid() string {
+	var buf [64]byte
+	n := runtime.Stack(buf[:], false)
+	f := strings.Fields(string(buf[:n]))
+	if len(f) > 1 {
+		return f[1]
+	}
+	return ""
+}
+
+// TagGoroutine names the calling goroutine for schedule-point labels that carry no object of their own
+// (lock points): the explorer can then tell the threads of a scenario apart. UntagGoroutine removes it.
+func TagGoroutine(tag string) { goroutineTags.Store(goid(), tag) }
+func UntagGoroutine()         { goroutineTags.Delete(goid()) }
+
+// GoroutineTag returns the calling goroutine's tag ("" if it has none).
+func GoroutineTag() string {
+	if t, ok := goroutineTags.Load(goid()); ok {
+		return t.(string)
+	}
+	return ""
 }
